@@ -419,11 +419,18 @@ impl<L: Localize> TimeDomainIterator<L> {
         }
     }
 
+    /// Bound above which an interval is approximated as infinite. A negative bound is read as
+    /// zero: it would otherwise prevent the iterator from consuming anything.
+    fn max_interval_size(&self) -> Option<chrono::TimeDelta> {
+        (self.opening_hours.ctx.approx_bound_interval_size)
+            .map(|max_interval_size| max_interval_size.max(chrono::TimeDelta::zero()))
+    }
+
     fn consume_until_next_kind(&mut self, curr_kind: RuleKind) {
         let start_date = self.curr_date;
 
         while self.curr_schedule.peek().map(|tr| tr.kind) == Some(curr_kind) {
-            if let Some(max_interval_size) = self.opening_hours.ctx.approx_bound_interval_size {
+            if let Some(max_interval_size) = self.max_interval_size() {
                 let give_up_after = max_interval_size
                     .checked_add(&chrono::TimeDelta::days(1))
                     .unwrap_or(chrono::TimeDelta::MAX);
@@ -487,7 +494,7 @@ impl<L: Localize> Iterator for TimeDomainIterator<L> {
                 ),
             );
 
-            if let Some(max_interval_size) = self.opening_hours.ctx.approx_bound_interval_size {
+            if let Some(max_interval_size) = self.max_interval_size() {
                 if end - start > max_interval_size {
                     return Some(DateTimeRange::new_with_sorted_comments(
                         start..DATE_END,
